@@ -1,7 +1,32 @@
-(** C12 — statements about the node model; see Proofs/NodeFacts.v *)
-From Wasp Require Import Model.Base Model.Node.
-From stdpp Require Import list.
+(** C12 — One live session per client identifier. *)
+From Wasp Require Import Model.Base Spec.MatchSpec Model.DState Model.IdPool Model.Mount Model.Node Proofs.BaseFacts Proofs.MountFacts Proofs.NodeFacts.
+From stdpp Require Import list strings.
 Open Scope Z_scope.
-Theorem C12_model_is_total : ∀ seen cl o, ∃ cl' obs, step seen cl o = (cl', obs).
-Proof. intros. destruct (step seen cl o) as [cl' obs]. by exists cl', obs. Qed.
-Print Assumptions C12_model_is_total.
+
+(** Tearing down a displaced session (its client identifier now resolves to another session)
+    changes no session record at all, publishes no will, and only tombstones subscriptions keyed
+    by its own session id. *)
+Theorem teardown_spares_new : ∀ cl i s d clk, mine_of (after_unsub cl i s clk) s = Some false →
+  (shutdown cl i s d clk).2 = [Closed (ss_conn s)] ∧ (shutdown cl i s d clk).1 = setn cl i (after_unsub cl i s clk).
+Proof. exact no_will_when_displaced. Qed.
+Print Assumptions teardown_spares_new.
+Theorem teardown_keeps_records : ∀ cl i s clk, d_sess (n_d (after_unsub cl i s clk)) = d_sess (n_d (getn cl i)).
+Proof. exact teardown_spares_records. Qed.
+Print Assumptions teardown_keeps_records.
+
+(** takeover on one node and across nodes (non-vacuity / regression examples): the new session
+    is established, the old one gets no PINGRESP and is closed at its next keep-alive exchange,
+    only the new one is listed and receives, and a connection with the same identifier in
+    another mount point displaces nobody *)
+Example c12_history :
+  let run := fold_left (λ st o, let r := step [] st.1 o in (r.1, (st.2 ++ [r.2])%list)) in
+  let ops := [EConnect 0%nat "old" "dev" "" "" 60 None 10; ESubscribe "old" 1 [("t", 0)] 20; EGossip 0%nat 1%nat;
+              EConnect 1%nat "new" "dev" "" "" 60 None 30; ESubscribe "new" 1 [("t", 0)] 40; EGossip 1%nat 0%nat;
+              EConnect 0%nat "tz" "dev" "tz" "" 60 None 50;
+              EPing "old" 60; EPing "new" 70; EGossip 0%nat 1%nat; ECheck 1%nat] in
+  let o := (run ops (cnew 2%nat, [])).2 in
+  nth 3%nat o [] = [Out "new" (OConnAck 0); Deadline "new" 120000]
+  ∧ nth 7%nat o [] = [Closed "old"]
+  ∧ nth 8%nat o [] = [Out "new" OPingResp; Deadline "new" 120000]
+  ∧ match nth 10%nat o [] with [Listed _ ss sb reg] => map m_sid ss = ["s002"; "s003"] ∧ map s_sid sb = ["s002"] ∧ reg = ["s002"] | _ => False end.
+Proof. vm_compute. done. Qed.
